@@ -21,6 +21,9 @@ import (
 func instrsOf(fn *ssa.Function) []ssa.Instruction {
 	var out []ssa.Instruction
 	for _, b := range fn.Blocks {
+		if b == fn.Recover {
+			continue // reached only after a recovered panic; loads the current results and returns
+		}
 		out = append(out, b.Instrs...)
 	}
 	return out
